@@ -101,7 +101,12 @@ def run_property(prop, tier='quick', fresh=None):
         print('BUILD-FAILED: /repo does not compile under cargo +nightly check; nothing can be decided')
         print(str(e)[-3000:])
         return 2
-    facts = Facts.load(facts_path)
+    try:
+        facts = Facts.load(facts_path)
+    except FileNotFoundError:
+        # the cache entry was pruned by a concurrent run between the look-up and the load: extract again
+        facts_path, h, info = engine.ensure_facts(fresh=fresh)
+        facts = Facts.load(facts_path)
     ctx = Ctx(facts, tier, prop)
     try:
         mod.run(ctx)
